@@ -101,13 +101,10 @@ def AllNL (p : Node → Prop) : List Node → Prop
   | n :: ns => AllN p n ∧ AllNL p ns
 end
 
-/-- the blame obligation for a tree: every node of it -/
-abbrev AllBlame (c : Cfg) (P : LProg) (n : Node) : Prop := AllN (BlameOK c P) n
-
 /-- what the loop builtins have to provide (stage B); vacuous for `L := fun _ => False` -/
 def LoopCase (c : Cfg) (P : LProg) (loops : Node → Prop) : Prop :=
   ∀ (m : Meta) (name : String) (a b : Node) (ca cb : List LInstr) (ci cs car c0 : Nat) (code : List LInstr)
-    (ctx : Ctx), loops a → BlameOK c P (.builtin m name [a, b]) → (∀ ctx', Sim c P ctx' a ca) →
+    (ctx : Ctx), loops a → (∀ ctx', Sim c P ctx' a ca) →
     (∀ ctx', Sim c P ctx' b cb) → LoopK P.consts ci cs car c0 →
     BuiltinCode P.consts m.loc name ca cb ci cs car c0 code → Sim c P ctx (.builtin m name [a, b]) code
 
@@ -116,30 +113,29 @@ def EnvOK (c : Cfg) (cfg : CompCfg) : Prop := cfg.mapEnv = true → ∃ kvs, c.e
 
 mutual
 theorem sim {c : Cfg} {P : LProg} {cfg : CompCfg} {loops : Node → Prop} (henv : EnvOK c cfg) (hloop : LoopCase c P loops) :
-    ∀ (n : Node) (code : List LInstr) (ctx : Ctx), Compiles P.consts cfg n code → Good loops n → AllBlame c P n →
-      Sim c P ctx n code
-  | .nil m, code, ctx, h, _, hbl => by
+    ∀ (n : Node) (code : List LInstr) (ctx : Ctx), Compiles P.consts cfg n code → Good loops n → Sim c P ctx n code
+  | .nil m, code, ctx, h, _ => by
     rw [Compiles_nil] at h; subst h; exact sim_nil m
-  | .bool m b, code, ctx, h, _, hbl => by
+  | .bool m b, code, ctx, h, _ => by
     rw [Compiles_bool] at h; subst h; exact sim_bool m b
-  | .int m v, code, ctx, h, _, hbl => by
+  | .int m v, code, ctx, h, _ => by
     rw [Compiles_int] at h; obtain ⟨k, hk, rfl⟩ := h
     exact sim_push hk (fun σ => by rw [eval_int]; rfl)
-  | .float m bits, code, ctx, h, _, hbl => by
+  | .float m bits, code, ctx, h, _ => by
     rw [Compiles_float] at h; obtain ⟨k, hk, rfl⟩ := h
     exact sim_push hk (fun σ => by rw [eval_float]; rfl)
-  | .str m s, code, ctx, h, _, hbl => by
+  | .str m s, code, ctx, h, _ => by
     rw [Compiles_str] at h; obtain ⟨k, hk, rfl⟩ := h
     exact sim_push hk (fun σ => by rw [eval_str]; rfl)
-  | .const m v, code, ctx, h, _, hbl => by
+  | .const m v, code, ctx, h, _ => by
     rw [Compiles_const] at h
     rcases h with ⟨rfl, rfl⟩ | ⟨_, k, hk, rfl⟩
-    · intro k st scs σ r σ' hcode hsc hev
+    · intro k st scs σ r σ' hcode hsc hev hB
       rw [eval_const, SM.pure_apply] at hev
       obtain ⟨rfl, rfl⟩ := Prod.mk.inj hev
       exact Runs.nil_ hcode (Reach.refl _ |>.to_ip (by ip_arith))
     · exact sim_push hk (fun σ => by rw [eval_const]; rfl)
-  | .ident m name nilsafe, code, ctx, h, _, hbl => by
+  | .ident m name nilsafe, code, ctx, h, _ => by
     rw [Compiles_ident] at h; obtain ⟨k, hk, rfl⟩ := h
     cases hm : cfg.mapEnv with
     | true =>
@@ -148,39 +144,39 @@ theorem sim {c : Cfg} {P : LProg} {cfg : CompCfg} {loops : Node → Prop} (henv 
       exact sim_ident_map hk hkvs
     | false =>
       simp only [Bool.false_eq_true, if_false]
-      exact sim_ident_fetch hk hbl
-  | .unary m op x, code, ctx, h, hg, hbl => by
+      exact sim_ident_fetch hk
+  | .unary m op x, code, ctx, h, hg => by
     rw [Compiles_unary] at h; obtain ⟨cx, hx, hc⟩ := h
-    have ihx := fun ctx => sim henv hloop x cx ctx hx hg hbl.2
+    have ihx := fun ctx => sim henv hloop x cx ctx hx hg
     by_cases h1 : (op == "!" || op == "not") = true
-    · simp only [h1, if_true] at hc; subst hc; exact sim_unary_not (ihx ctx) h1 hbl.1
+    · simp only [h1, if_true] at hc; subst hc; exact sim_unary_not (ihx ctx) h1
     · simp only [h1, if_false] at hc
       by_cases h2 : (op == "+") = true
       · simp only [h2, if_true] at hc; subst hc; exact sim_unary_plus (ihx ctx) h2
       · simp only [h2, if_false] at hc
         by_cases h3 : (op == "-") = true
-        · simp only [h3, if_true] at hc; subst hc; exact sim_unary_minus (ihx ctx) h3 hbl.1
+        · simp only [h3, if_true] at hc; subst hc; exact sim_unary_minus (ihx ctx) h3
         · simp [h1, h2, h3] at hc
-  | .binary m op l r, code, ctx, h, hg, hbl => by
+  | .binary m op l r, code, ctx, h, hg => by
     rw [Compiles_binary] at h; obtain ⟨cl, cr, hl, hr, hc⟩ := h
-    have ihl := sim henv hloop l cl ctx hl hg.1 hbl.2.1
-    have ihr := sim henv hloop r cr ctx hr hg.2 hbl.2.2
+    have ihl := sim henv hloop l cl ctx hl hg.1
+    have ihr := sim henv hloop r cr ctx hr hg.2
     by_cases h1 : (op == "==") = true
     · simp only [h1, if_true] at hc; subst hc
       have : op = "==" := by simpa using h1
       subst this
-      exact sim_binary_strict ihl ihr (by decide) (by decide) tail_eq hbl.1
+      exact sim_binary_strict ihl ihr (by decide) (by decide) tail_eq
     · simp only [h1, if_false] at hc
       by_cases h2 : (op == "or" || op == "||") = true
       · simp only [h2, if_true] at hc; subst hc
         have hna : (op == "and" || op == "&&") = false := by
           simp only [Bool.or_eq_true, beq_iff_eq] at h2
           rcases h2 with rfl | rfl <;> decide
-        exact sim_or ihl ihr hna h2 hbl.1
+        exact sim_or ihl ihr hna h2
       · simp only [h2, if_false] at hc
         by_cases h3 : (op == "and" || op == "&&") = true
         · simp only [h3, if_true] at hc; subst hc
-          exact sim_and ihl ihr h3 hbl.1
+          exact sim_and ihl ihr h3
         · simp [h1, h2, h3] at hc
           cases hops : binSimpleOp op with
           | none => simp [h1, h2, h3, hops] at hc
@@ -188,109 +184,113 @@ theorem sim {c : Cfg} {P : LProg} {cfg : CompCfg} {loops : Node → Prop} (henv 
             simp only [hops] at hc; subst hc
             obtain ⟨ha, ho, _, ht⟩ := binSimple_tail (c := c) (P := P) (l := l) (r := r) (loc := m.loc) hops
             rw [← List.append_assoc]
-            exact sim_binary_strict ihl ihr ha ho ht hbl.1
-  | .matches m hasRe l r, code, ctx, h, hg, hbl => by
+            exact sim_binary_strict ihl ihr ha ho ht
+  | .matches m hasRe l r, code, ctx, h, hg => by
     rw [Compiles_matches] at h; obtain ⟨cl, hl, hc⟩ := h
-    have ihl := sim henv hloop l cl ctx hl hg.1 hbl.2.1
+    have ihl := sim henv hloop l cl ctx hl hg.1
     cases hasRe with
     | true =>
       simp only [if_true] at hc
       obtain ⟨k, hk, rfl⟩ := hc
-      exact sim_matches_re ihl hk hbl.1
+      exact sim_matches_re ihl hk
     | false =>
       simp only [Bool.false_eq_true, if_false] at hc
       obtain ⟨cr, hr, rfl⟩ := hc
-      exact sim_matches_dyn ihl (sim henv hloop r cr ctx hr hg.2 hbl.2.2) hbl.1
-  | .prop m x name nilsafe, code, ctx, h, hg, hbl => by
+      exact sim_matches_dyn ihl (sim henv hloop r cr ctx hr hg.2)
+  | .prop m x name nilsafe, code, ctx, h, hg => by
     rw [Compiles_prop] at h; obtain ⟨cx, k, hx, hk, rfl⟩ := h
-    exact sim_prop (sim henv hloop x cx ctx hx hg hbl.2) hk hbl.1
-  | .index m x i, code, ctx, h, hg, hbl => by
+    exact sim_prop (sim henv hloop x cx ctx hx hg) hk
+  | .index m x i, code, ctx, h, hg => by
     rw [Compiles_index] at h; obtain ⟨cx, ci, hx, hi, rfl⟩ := h
-    exact sim_index (sim henv hloop x cx ctx hx hg.1 hbl.2.1) (sim henv hloop i ci ctx hi hg.2 hbl.2.2) hbl.1
-  | .slice m x (some f) (some t), code, ctx, h, hg, hbl => by
+    exact sim_index (sim henv hloop x cx ctx hx hg.1) (sim henv hloop i ci ctx hi hg.2)
+  | .slice m x (some f) (some t), code, ctx, h, hg => by
     rw [Compiles_slice] at h; obtain ⟨cx, ct, cf, hx, ht, hf, rfl⟩ := h
     rw [CompilesO_some] at ht hf
-    exact sim_slice_gen (sim henv hloop x cx ctx hx hg.1 hbl.2.1) (boundT_some (sim henv hloop t ct ctx ht hg.2.2 hbl.2.2.2))
-      (sim henv hloop f cf ctx hf hg.2.1 hbl.2.2.1) hbl.1 (eval_slice_ss _ _ rfl m x f t)
-  | .slice m x (some f) none, code, ctx, h, hg, hbl => by
+    exact sim_slice_gen (sim henv hloop x cx ctx hx hg.1) (boundT_some (sim henv hloop t ct ctx ht hg.2.2))
+      (sim henv hloop f cf ctx hf hg.2.1) (fun _ _ _ _ h => evalLoc_of_ok h) (fun _ _ _ h => evalLoc_of_ok h)
+      (eval_slice_ss _ _ rfl m x f t) (evalLoc_slice_ss _ _ rfl m x f t)
+  | .slice m x (some f) none, code, ctx, h, hg => by
     rw [Compiles_slice] at h; obtain ⟨cx, ct, cf, hx, ht, hf, rfl⟩ := h
     rw [CompilesO_some] at hf
     rw [CompilesO_none] at ht; subst ht
-    exact sim_slice_gen (sim henv hloop x cx ctx hx hg.1 hbl.2.1) boundT_none
-      (sim henv hloop f cf ctx hf hg.2.1 hbl.2.2.1) hbl.1 (eval_slice_sn' _ rfl m x f)
-  | .slice m x none (some t), code, ctx, h, hg, hbl => by
+    exact sim_slice_gen (sim henv hloop x cx ctx hx hg.1) boundT_none
+      (sim henv hloop f cf ctx hf hg.2.1) (fun _ _ _ _ h => raisedAt_ok h) (fun _ _ _ h => evalLoc_of_ok h)
+      (eval_slice_sn' _ rfl m x f) (evalLoc_slice_sn' _ rfl m x f)
+  | .slice m x none (some t), code, ctx, h, hg => by
     rw [Compiles_slice] at h; obtain ⟨cx, ct, cf, hx, ht, hf, rfl⟩ := h
     rw [CompilesO_some] at ht
     rw [CompilesO_none] at hf; obtain ⟨k0, hk0, rfl⟩ := hf
-    exact sim_slice_gen (sim henv hloop x cx ctx hx hg.1 hbl.2.1) (boundT_some (sim henv hloop t ct ctx ht hg.2.2 hbl.2.2.2))
-      (boundF_none hk0) hbl.1 (eval_slice_ns _ _ rfl m x t)
-  | .slice m x none none, code, ctx, h, hg, hbl => by
+    exact sim_slice_gen (sim henv hloop x cx ctx hx hg.1) (boundT_some (sim henv hloop t ct ctx ht hg.2.2))
+      (boundF_none hk0) (fun _ _ _ _ h => evalLoc_of_ok h) (fun _ _ _ h => by
+        rw [SM.pure_apply] at h; obtain ⟨h1, h2⟩ := Prod.mk.inj h; cases h1; subst h2; rfl)
+      (eval_slice_ns _ _ rfl m x t) (evalLoc_slice_ns _ _ rfl m x t)
+  | .slice m x none none, code, ctx, h, hg => by
     rw [Compiles_slice] at h; obtain ⟨cx, ct, cf, hx, ht, hf, rfl⟩ := h
     rw [CompilesO_none] at ht hf; subst ht; obtain ⟨k0, hk0, rfl⟩ := hf
-    exact sim_slice_gen (sim henv hloop x cx ctx hx hg.1 hbl.2.1) boundT_none (boundF_none hk0) hbl.1 (eval_slice_nn' _ rfl m x)
-  | .method m x name args nilsafe, code, ctx, h, hg, hbl => by
+    exact sim_slice_gen (sim henv hloop x cx ctx hx hg.1) boundT_none (boundF_none hk0)
+      (fun _ _ _ _ h => raisedAt_ok h) (fun _ _ _ h => by
+        rw [SM.pure_apply] at h; obtain ⟨h1, h2⟩ := Prod.mk.inj h; cases h1; subst h2; rfl) (eval_slice_nn' _ rfl m x) (evalLoc_slice_nn' _ rfl m x)
+  | .method m x name args nilsafe, code, ctx, h, hg => by
     rw [Compiles_method] at h; obtain ⟨cx, ca, k, hx, ha, hk, rfl⟩ := h
-    exact sim_method (sim henv hloop x cx ctx hx hg.1 hbl.2.1) (simL henv hloop args ca ctx ha hg.2 hbl.2.2) (goodL_noPairs hg.2) hk hbl.1
-  | .func m name args fast, code, ctx, h, hg, hbl => by
+    exact sim_method (sim henv hloop x cx ctx hx hg.1) (simL henv hloop args ca ctx ha hg.2) (goodL_noPairs hg.2) hk
+  | .func m name args fast, code, ctx, h, hg => by
     rw [Compiles_func] at h; obtain ⟨ca, k, ha, hk, rfl⟩ := h
-    exact sim_func (simL henv hloop args ca ctx ha hg hbl.2) (goodL_noPairs hg) hk hbl.1
-  | .builtin m name [], code, ctx, h, hg, hbl => by
+    exact sim_func (simL henv hloop args ca ctx ha hg) (goodL_noPairs hg) hk
+  | .builtin m name [], code, ctx, h, hg => by
     rw [Compiles_builtin0] at h; exact h.elim
-  | .builtin m name [a], code, ctx, h, hg, hbl => by
+  | .builtin m name [a], code, ctx, h, hg => by
     rw [Compiles_builtin1] at h; obtain ⟨rfl, ca, ha, rfl⟩ := h
-    exact sim_len (sim henv hloop a ca ctx ha hg.2.1 hbl.2.1) hbl.1
-  | .builtin m name [a, b], code, ctx, h, hg, hbl => by
+    exact sim_len (sim henv hloop a ca ctx ha hg.2.1)
+  | .builtin m name [a, b], code, ctx, h, hg => by
     rw [Compiles_builtin2] at h; obtain ⟨ca, cb, ci, cs, car, c0, ha, hb, hK, hcode⟩ := h
     have hl : loops a := by
       rcases hg.1 with rfl | hl
       · rcases hcode with ⟨h, _⟩ | ⟨h, _⟩ | ⟨h, _⟩ | ⟨h, _⟩ | ⟨h, _⟩ | ⟨h, _⟩ | ⟨h, _⟩ <;> exact absurd h (by decide)
       · exact hl
-    exact hloop m name a b ca cb ci cs car c0 code ctx hl hbl.1
-      (fun ctx' => sim henv hloop a ca ctx' ha hg.2.1 hbl.2.1) (fun ctx' => sim henv hloop b cb ctx' hb hg.2.2.1 hbl.2.2.1) hK hcode
-  | .builtin m name (a :: b :: d :: rest), code, ctx, h, hg, hbl => by
+    exact hloop m name a b ca cb ci cs car c0 code ctx hl
+      (fun ctx' => sim henv hloop a ca ctx' ha hg.2.1) (fun ctx' => sim henv hloop b cb ctx' hb hg.2.2.1) hK hcode
+  | .builtin m name (a :: b :: d :: rest), code, ctx, h, hg => by
     rw [Compiles_builtin3] at h; exact h.elim
-  | .closure m x, code, ctx, h, hg, hbl => by
+  | .closure m x, code, ctx, h, hg => by
     rw [Compiles_closure] at h
-    exact sim_closure (sim henv hloop x code ctx h hg hbl.2)
-  | .pointer m, code, ctx, h, _, hbl => by
+    exact sim_closure (sim henv hloop x code ctx h hg)
+  | .pointer m, code, ctx, h, _ => by
     rw [Compiles_pointer] at h; obtain ⟨car, ci, hcar, hci, rfl⟩ := h
-    exact sim_pointer hcar hci hbl
-  | .cond m cn a b, code, ctx, h, hg, hbl => by
+    exact sim_pointer hcar hci
+  | .cond m cn a b, code, ctx, h, hg => by
     rw [Compiles_cond] at h; obtain ⟨cc, ca, cb, hc, ha, hb, rfl⟩ := h
-    exact sim_cond (sim henv hloop cn cc ctx hc hg.1 hbl.2.1) (sim henv hloop a ca ctx ha hg.2.1 hbl.2.2.1) (sim henv hloop b cb ctx hb hg.2.2 hbl.2.2.2) hbl.1
-  | .array m xs, code, ctx, h, hg, hbl => by
+    exact sim_cond (sim henv hloop cn cc ctx hc hg.1) (sim henv hloop a ca ctx ha hg.2.1) (sim henv hloop b cb ctx hb hg.2.2)
+  | .array m xs, code, ctx, h, hg => by
     rw [Compiles_array] at h; obtain ⟨cx, k, hx, hk, rfl⟩ := h
-    exact sim_array (simL henv hloop xs cx ctx hx hg hbl.2) (goodL_noPairs hg) hk hbl.1
-  | .map m ps, code, ctx, h, hg, hbl => by
+    exact sim_array (simL henv hloop xs cx ctx hx hg) (goodL_noPairs hg) hk
+  | .map m ps, code, ctx, h, hg => by
     rw [Compiles_map] at h; obtain ⟨cx, k, hx, hk, rfl⟩ := h
-    exact sim_map (simP henv hloop ps cx ctx hx hg hbl.2) (goodP_allPairs hg) hk hbl.1
-  | .pair m k v, code, ctx, h, hg, _ => hg.elim
+    exact sim_map (simP henv hloop ps cx ctx hx hg) (goodP_allPairs hg) hk
+  | .pair m k v, code, ctx, h, hg => hg.elim
 theorem simL {c : Cfg} {P : LProg} {cfg : CompCfg} {loops : Node → Prop} (henv : EnvOK c cfg) (hloop : LoopCase c P loops) :
-    ∀ (ns : List Node) (code : List LInstr) (ctx : Ctx), CompilesL P.consts cfg ns code → GoodL loops ns →
-      AllNL (BlameOK c P) ns → SimL c P ctx ns code
-  | [], code, ctx, h, _, hbl => by
+    ∀ (ns : List Node) (code : List LInstr) (ctx : Ctx), CompilesL P.consts cfg ns code → GoodL loops ns → SimL c P ctx ns code
+  | [], code, ctx, h, _ => by
     rw [CompilesL_nil] at h; subst h; exact simL_nil
-  | n :: ns, code, ctx, h, hg, hbl => by
+  | n :: ns, code, ctx, h, hg => by
     rw [CompilesL_cons] at h; obtain ⟨c1, c2, h1, h2, rfl⟩ := h
-    exact simL_cons (good_not_pair hg.1) (sim henv hloop n c1 ctx h1 hg.1 hbl.1) (simL henv hloop ns c2 ctx h2 hg.2 hbl.2)
+    exact simL_cons (good_not_pair hg.1) (sim henv hloop n c1 ctx h1 hg.1) (simL henv hloop ns c2 ctx h2 hg.2)
 theorem simP {c : Cfg} {P : LProg} {cfg : CompCfg} {loops : Node → Prop} (henv : EnvOK c cfg) (hloop : LoopCase c P loops) :
-    ∀ (ns : List Node) (code : List LInstr) (ctx : Ctx), CompilesL P.consts cfg ns code → GoodP loops ns →
-      AllNL (BlameOK c P) ns → SimL c P ctx ns code
-  | [], code, ctx, h, _, hbl => by
+    ∀ (ns : List Node) (code : List LInstr) (ctx : Ctx), CompilesL P.consts cfg ns code → GoodP loops ns → SimL c P ctx ns code
+  | [], code, ctx, h, _ => by
     rw [CompilesL_nil] at h; subst h; exact simL_nil
-  | .pair m k v :: ns, code, ctx, h, hg, hbl => by
+  | .pair m k v :: ns, code, ctx, h, hg => by
     rw [CompilesL_cons] at h; obtain ⟨c1, c2, h1, h2, rfl⟩ := h
     rw [Compiles_pair] at h1; obtain ⟨ck, cv, hk, hv, rfl⟩ := h1
     have hg' : Good loops k ∧ Good loops v ∧ GoodP loops ns := hg
-    exact simL_pair (sim henv hloop k ck ctx hk hg'.1 hbl.1.2.1) (sim henv hloop v cv ctx hv hg'.2.1 hbl.1.2.2)
-      (simP henv hloop ns c2 ctx h2 hg'.2.2 hbl.2)
-  | .nil _ :: _, _, _, _, hg, _ | .ident .. :: _, _, _, _, hg, _ | .int .. :: _, _, _, _, hg, _ | .float .. :: _, _, _, _, hg, _
-  | .bool .. :: _, _, _, _, hg, _ | .str .. :: _, _, _, _, hg, _ | .const .. :: _, _, _, _, hg, _ | .unary .. :: _, _, _, _, hg, _
-  | .binary .. :: _, _, _, _, hg, _ | .matches .. :: _, _, _, _, hg, _ | .prop .. :: _, _, _, _, hg, _
-  | .index .. :: _, _, _, _, hg, _ | .slice .. :: _, _, _, _, hg, _ | .method .. :: _, _, _, _, hg, _
-  | .func .. :: _, _, _, _, hg, _ | .builtin .. :: _, _, _, _, hg, _ | .closure .. :: _, _, _, _, hg, _
-  | .pointer _ :: _, _, _, _, hg, _ | .cond .. :: _, _, _, _, hg, _ | .array .. :: _, _, _, _, hg, _
-  | .map .. :: _, _, _, _, hg, _ => (hg : False).elim
+    exact simL_pair (sim henv hloop k ck ctx hk hg'.1) (sim henv hloop v cv ctx hv hg'.2.1)
+      (simP henv hloop ns c2 ctx h2 hg'.2.2)
+  | .nil _ :: _, _, _, _, hg | .ident .. :: _, _, _, _, hg | .int .. :: _, _, _, _, hg | .float .. :: _, _, _, _, hg
+  | .bool .. :: _, _, _, _, hg | .str .. :: _, _, _, _, hg | .const .. :: _, _, _, _, hg | .unary .. :: _, _, _, _, hg
+  | .binary .. :: _, _, _, _, hg | .matches .. :: _, _, _, _, hg | .prop .. :: _, _, _, _, hg
+  | .index .. :: _, _, _, _, hg | .slice .. :: _, _, _, _, hg | .method .. :: _, _, _, _, hg
+  | .func .. :: _, _, _, _, hg | .builtin .. :: _, _, _, _, hg | .closure .. :: _, _, _, _, hg
+  | .pointer _ :: _, _, _, _, hg | .cond .. :: _, _, _, _, hg | .array .. :: _, _, _, _, hg
+  | .map .. :: _, _, _, _, hg => (hg : False).elim
 end
 
 end ExprModel.Refine
